@@ -52,12 +52,22 @@ func Mv(r *Root, src, dst string) error {
 		return err
 	}
 
+	// A directory cannot be moved into itself or below itself: the entry
+	// would be added under the very directory that is unlinked afterwards,
+	// and the whole subtree would be lost.
+	if isSelfOrAncestor(srcObj, dstDir) {
+		return ErrMoveIntoSelf
+	}
+
 	fsn, err := dstDir.Child(dstFname)
 	if err == nil {
 		switch n := fsn.(type) {
 		case *File:
 			_ = dstDir.Unlink(dstFname)
 		case *Directory:
+			if FSNode(n) == srcObj {
+				return ErrMoveIntoSelf
+			}
 			dstDir = n
 			dstFname = srcFname
 		default:
@@ -77,6 +87,26 @@ func Mv(r *Root, src, dst string) error {
 	}
 
 	return srcDir.Unlink(srcFname)
+}
+
+// ErrMoveIntoSelf is returned by Mv when the source is a directory and the
+// destination is that directory or lies below it.
+var ErrMoveIntoSelf = errors.New("cannot move a directory into itself or one of its subdirectories")
+
+// isSelfOrAncestor reports whether fsn is the directory d or one of the
+// directories above d.
+func isSelfOrAncestor(fsn FSNode, d *Directory) bool {
+	sd, ok := fsn.(*Directory)
+	if !ok {
+		return false
+	}
+	for cur := d; cur != nil; {
+		if cur == sd {
+			return true
+		}
+		cur, _ = cur.parent.(*Directory)
+	}
+	return false
 }
 
 func lookupDir(r *Root, path string) (*Directory, error) {
